@@ -370,7 +370,7 @@ func checkC17(c *Ctx, r *Report) {
 		if f.Pkg == nil || strings.HasSuffix(f.Pkg.Pkg.Path(), controlsPkg) {
 			continue
 		}
-		for _, call := range callsIn(f, "(*"+oaP+".Manager).Addrs", "(p2p/host/basic.ObservedAddrsManager).Addrs") {
+		for _, call := range callsInOnly(f, "(*"+oaP+".Manager).Addrs", "(p2p/host/basic.ObservedAddrsManager).Addrs") {
 			a := callArgs(call)[1]
 			n, isC := constInt(a)
 			key := fnKey(f) + ": observed Addrs(minObservers)"
